@@ -583,6 +583,21 @@ int main(int argc, char **argv)
 		case 'o': sscanf(line, "o %lu", &a); simSbrkForeign(a); break;
 		case 'v': sscanf(line, "v %lu", &a); stoCtl(StoCtl_GcLevel, (int) a); break;
 		case 'w': sscanf(line, "w %lu", &a); if (!washSet && !nB) { stoCtl(StoCtl_Wash, (int) a); washSet = 1; } break;
+		case 'k': {	/* a chain of n blocks, each holding the previous one through its FIRST word
+				 * (not the last one: the marker cannot follow it by tail call); only the
+				 * head keeps an exact root */
+			long prev = -1, i, n, hx;
+			sscanf(line, "k %lu %lu", &a, &b);
+			if (b < 16) b = 16;
+			n = (long) a;
+			for (i = 0; i < n && nB < MAXBLK - 2; i++) {
+				hx = opAlloc(b, 0, K_EXACT);
+				if (hx < 0) break;
+				if (prev >= 0 && B[prev].livePos >= 0 && B[hx].livePos >= 0) opLink(hx, prev);
+				prev = hx;
+			}
+			break;
+		}
 		case 'p': {
 			long n, i;
 			sscanf(line, "p %lu %7s %lu", &a, k, &c);
